@@ -17,12 +17,12 @@ func (h Hash) String() string {
 
 // UnmarshalGQL implement the Unmarshaler interface for gqlgen
 func (h *Hash) UnmarshalGQL(v interface{}) error {
-	_, ok := v.(string)
+	str, ok := v.(string)
 	if !ok {
 		return fmt.Errorf("hashes must be strings")
 	}
 
-	*h = v.(Hash)
+	*h = Hash(str)
 
 	if !h.IsValid() {
 		return fmt.Errorf("invalid hash")
